@@ -1,0 +1,25 @@
+//go:build verif
+
+// Contracts for the deductive verifier under /verif (gvc). This file contains no
+// declarations: it is comment-only and excluded from normal builds by the tag.
+
+package bigslice
+
+//@ spec func shardOff(n, nshard, s int) int = (n/nshard)*s + ite(s < n%nshard, s, n%nshard)
+//@ spec func shardCnt(n, nshard, s int) int = n/nshard + ite(s < n%nshard, 1, 0)
+
+//@ func bigslice.constShard
+//@   requires n >= 0 && nshard >= 1 && 0 <= shard && shard < nshard
+//@   overflow checked
+//@   ensures  off: offset == shardOff(n, nshard, shard)
+//@   ensures  cnt: count == shardCnt(n, nshard, shard)
+//@   ensures  nonneg: offset >= 0 && count >= 0 && offset + count <= n
+//@   modifies nothing
+
+//@ lemma tiling-start: implies(n >= 0 && nshard >= 1, shardOff(n, nshard, 0) == 0)
+//@   vars n, nshard int
+//@ lemma tiling-step: implies(n >= 0 && nshard >= 1 && 0 <= s && s < nshard,
+//@            shardCnt(n,nshard,s) >= 0 && shardOff(n,nshard,s)+shardCnt(n,nshard,s) == shardOff(n,nshard,s+1))
+//@   vars n, nshard, s int
+//@ lemma tiling-end: implies(n >= 0 && nshard >= 1, shardOff(n, nshard, nshard) == n)
+//@   vars n, nshard int
